@@ -72,16 +72,18 @@ def walk_history(rng, hid, length):
     them component by component; what w2c2 hands to the host - and what it remembers as the path of a directory descriptor -
     must denote the same objects.  Tree: a/ a/b/ o/ o/in/, files a/f o/in/g o/h, links lk -> o/in, a/b/up -> ../../o,
     o/back -> ../a, c1 -> c2, c2 -> c1 (a cycle), dang -> nowhere/x, a/here -> ."""
-    setup = [{"call": "mkdirs", "path": x} for x in ("a", "a/b", "o", "o/in")] + \
+    # (names with a colon or a backslash are names: "c:" is a directory here, "D:\\f" a possible file name)
+    setup = [{"call": "mkdirs", "path": x} for x in ("a", "a/b", "o", "o/in", "c:", "c:/sub")] + \
             [{"call": "mkfile", "path": x, "bytes": [len(x), 7]} for x in ("a/f", "o/in/g", "o/h")] + \
             [{"call": "mklink", "path": p_, "target": t_} for p_, t_ in (("lk", "o/in"), ("a/b/up", "../../o"), ("o/back", "../a"), ("c1", "c2"), ("c2", "c1"),
                                                                        ("dang", "nowhere/x"), ("a/here", "."))]
     # ways to name a directory (walked completely): they end in "..", in a link to a directory, in "." - or are plain
     dirpaths = ["lk/..", "a/b/up", "a/b/up/in", "a/b/up/in/..", "a/b/../b/up/..", "lk/../../a/./b", "o/back/b/up/in", "a/here/b/..", "a/here/here/b",
-                "lk", "a/..", "o/in/../..", "a/b/up/back", "c1", "c1/x/..", "dang/..", "a/f/..", "nope/..", "lk/../../..", "a/b/up/../o"]
+                "lk", "a/..", "o/in/../..", "a/b/up/back", "c1", "c1/x/..", "dang/..", "a/f/..", "nope/..", "lk/../../..", "a/b/up/../o", "c:", "c:/sub", "c:/sub/.."]
     # ways to name an entry: a walked directory part, then a plain last name
-    parents = ["", "lk/..", "a/b/up", "a/b/up/in", "lk", "o/back", "a/here", "a/b/..", "lk/../in", "c1", "dang", "a/f", "o/back/b/up", "a/../o/in/.."]
-    lasts = ["n1", "g", "f", "h", "in", "b", "new", "up"]
+    parents = ["", "lk/..", "a/b/up", "a/b/up/in", "lk", "o/back", "a/here", "a/b/..", "lk/../in", "c1", "dang", "a/f", "o/back/b/up", "a/../o/in/..",
+               "c:", "c:/sub", "c:/sub/..", "c:/../c:"]
+    lasts = ["n1", "g", "f", "h", "in", "b", "new", "up", "D:\\f", "e:", "x:y"]
     calls, dirfds, nextfd = [], [3], 4
     for _ in range(length):
         abi = rng.choice("pu")
